@@ -252,7 +252,8 @@ void ebpps_sketch<T, A>::internal_merge(O&& sk) {
     if (cumulative_wt_ > 0.0)
       sample_.downsample(new_rho / rho_);
   
-    tmp_.replace_content(conditional_forward<O>(items[i]), new_rho * avg_wt);
+    // an item never contributes more than 1 to C: guards against rounding and inconsistent input
+    tmp_.replace_content(conditional_forward<O>(items[i]), std::min(1.0, new_rho * avg_wt));
     sample_.merge(tmp_);
 
     cumulative_wt_ = new_cum_wt;
@@ -270,7 +271,7 @@ void ebpps_sketch<T, A>::internal_merge(O&& sk) {
     if (cumulative_wt_ > 0.0)
       sample_.downsample(new_rho / rho_);
   
-    tmp_.replace_content(conditional_forward<O>(other_sample.get_partial_item()), new_rho * other_c_frac * avg_wt);
+    tmp_.replace_content(conditional_forward<O>(other_sample.get_partial_item()), other_c_frac * std::min(1.0, new_rho * avg_wt));
     sample_.merge(tmp_);
 
     cumulative_wt_ = new_cum_wt;
